@@ -56,6 +56,8 @@ def gen_world(rng, i, tier):
                 # the parse options must not change which error is reported (JOIN_SAME_ENTRIES works on the
                 # entries after the file was read)
                 lw["read"]["opts"]["extra"] = rng.pick([[], [], ["JOIN_SAME_ENTRIES=1"], ["JOIN_SAME_ENTRIES=1"]])
+    # the caller's callback may itself read a configuration through the library (an allow-list) before it answers
+    w["nested"] = rng.chance(0.25)
     # earlier reads of the same process: other files, other delimiter classes (the arguments live in reused buffers)
     w["stale"] = rng.pick([[], ["good"], ["bad"], ["good", "bad"], ["bad", "good"], ["good:blank"], ["good:mixed", "bad"], ["good:none"], ["bad", "good:blank"]])
     return w
@@ -138,7 +140,14 @@ def plan_for(world, positions):
         sd = {"": "=", "blank": " \t", "mixed": " =", "none": ""}[dk]
         ops.append({"op": "readFile", "o": 7, "path": "$ROOT/stale/%s.conf" % nm, "delim": sd, "comment": "#;" if dk else "#", "tag": "stale"})
         ops.append({"op": "free", "k": 7})
-    ops += gen.layered_read_ops(read, cb={} if cbv else None, init=world["init"])
+    cb = None
+    if cbv:
+        cb = {}
+        if world.get("nested"):
+            from . import c06
+            cb = {"nested": c06.POLICY}
+            tree += c06.POLICY_NODES
+    ops += gen.layered_read_ops(read, cb=cb, init=world["init"])
     ops.append({"op": "errLocation", "tag": "loc"})
     ops.append({"op": "readFile", "o": 8, "path": "$ROOT/nosuch/file.conf", "delim": D, "comment": C, "tag": "missing"})
     # missing in another way: a path component is a regular file (ENOTDIR), the name is too long for the file system
